@@ -46,7 +46,7 @@ def run(ctx):
     from hpl.ast import HplVacuousTruth, HplContradiction, HplSimpleEvent
     ep, prp = expression_parser(), predicate_parser()
     g = Gen(rng, aliases=['A', 'B'], max_depth=4, opaque=False, consts=False)
-    n = 450 if ctx.quick else 5000
+    n = 450 if ctx.quick else 2000
     preds, exprs = [], []
     rejects = 0
     for _ in range(n):
